@@ -477,7 +477,15 @@ class MagicProperties:
             replace_None_only=_replace_None_only,
         )
         for k, v in new_dict.items():
-            setattr(self, k, v)
+            current = getattr(self, f"_{k}", None)
+            if isinstance(v, dict) and isinstance(current, MagicProperties):
+                # `v` holds the complete new state of this sub-property (the current values
+                # with the update merged in): the sub-property is rebuilt from it, which is
+                # much cheaper than updating a copy level by level, and assigned only when
+                # all of its values are valid
+                object.__setattr__(self, f"_{k}", type(current)(**v))
+            else:
+                setattr(self, k, v)
         return self
 
     def copy(self):
